@@ -137,16 +137,32 @@ def run(repo: Repo, L: Ledger, tier: str):
         k = kw(c, "key")
         rev = kw(c, "reverse")
         if ok3:
-            ok3 = isinstance(k, ast.Lambda) and isinstance(k.body, ast.Attribute) and k.body.attr in ("length", "fragments_length") and is_name(k.body.value, k.args.args[0].arg)
+            key_attr = None
+            if isinstance(k, ast.Lambda) and isinstance(k.body, ast.Attribute) and is_name(k.body.value, k.args.args[0].arg):
+                key_attr = k.body.attr
+            elif isinstance(k, ast.Call) and (dotted(k.func) or "").split(".")[-1] == "attrgetter" and len(k.args) == 1 and isinstance(k.args[0], ast.Constant):
+                key_attr = k.args[0].value
+            elif isinstance(k, ast.Name) and k.id in rbs.module.assigns and isinstance(rbs.module.assigns[k.id], ast.Call) and (dotted(rbs.module.assigns[k.id].func) or "").split(".")[-1] == "attrgetter":
+                key_attr = rbs.module.assigns[k.id].args[0].value if rbs.module.assigns[k.id].args and isinstance(rbs.module.assigns[k.id].args[0], ast.Constant) else None
+            elif k is not None and not isinstance(k, ast.Lambda):
+                raise AnalysisError(f"{rbs.short}: sort key '{norm(k)[:50]}' is not a lambda or attrgetter: not understood")
+            ok3 = key_attr in ("length", "fragments_length")
             why3 = f"sort key is '{norm(k) if k is not None else None}', expected the scaffold's length"
         if ok3:
             ok3 = rev is not None and try_fold(rev, default=None) is True
             why3 = "not sorted largest first (reverse=True missing): H_1 / unloc_1 would be the smallest"
     L.check(ok3, "R3", rbs.short + ":sort", "sorted(scaffolds, key=length, reverse=True)", why3, rbs.loc())
-    names_def = [n for n in walk_shallow(rbs.node) if isinstance(n, ast.Assign) and isinstance(n.value, ast.ListComp)]
+    def _as_comp(v):
+        if isinstance(v, ast.ListComp):
+            return v
+        if isinstance(v, ast.Call) and dotted(v.func) in ("list", "tuple") and len(v.args) == 1 and isinstance(v.args[0], ast.GeneratorExp | ast.ListComp):
+            return v.args[0]
+        return None
+
+    names_def = [n for n in walk_shallow(rbs.node) if isinstance(n, ast.Assign) and _as_comp(n.value) is not None]
     ok3b = False
     if len(names_def) == 1:
-        g = names_def[0].value
+        g = _as_comp(names_def[0].value)
         ok3b = len(g.generators) == 1 and not g.generators[0].ifs and is_name(g.generators[0].iter, lp) and isinstance(g.elt, ast.Attribute) and g.elt.attr == "name"
     L.check(ok3b, "R3", rbs.short + ":names", "names taken from every scaffold of the same list, in creation order", "names are not collected from all scaffolds of the list", rbs.loc())
     loops = [n for n in walk_shallow(rbs.node) if isinstance(n, ast.For)]
@@ -164,6 +180,17 @@ def run(repo: Repo, L: Ledger, tier: str):
         if is_name(a0, sorted_var) and is_name(a1, names_var) and len(body) == 1 and isinstance(body[0], ast.Assign):
             tv, nv = (e.id for e in loops[0].target.elts)
             ok3c = norm(body[0]) == f"{tv}.name = {nv}"
+    if not ok3c and len(loops) == 1 and isinstance(loops[0].iter, ast.Call) and dotted(loops[0].iter.func) == "enumerate" and names_def:
+        # for i, s in enumerate(by_size): s.name = names[i]
+        it = loops[0].iter
+        sorted_var = next((n.targets[0].id for n in walk_shallow(rbs.node) if isinstance(n, ast.Assign) and n.value in srt), None)
+        start0 = len(it.args) == 1 and not it.keywords
+        body = loops[0].body
+        if it.args and is_name(it.args[0], sorted_var) and start0 and isinstance(loops[0].target, ast.Tuple) and len(body) == 1 and isinstance(body[0], ast.Assign):
+            iv_, tv = (e.id for e in loops[0].target.elts)
+            ok3c = norm(body[0]).replace(" ", "") == f"{tv}.name={names_def[0].targets[0].id}[{iv_}]"
+    if not ok3c and not (len(loops) == 1 and isinstance(loops[0].iter, ast.Call) and dotted(loops[0].iter.func) in ("zip", "enumerate")):
+        raise AnalysisError(f"{rbs.short}: how the names are handed out along the size order is not understood (neither zip(sorted, names) nor enumerate(sorted) with names[i])")
     L.check(ok3c, "R3", rbs.short + ":assign", "k-th largest scaffold receives the k-th name (a permutation of the same names)", "names are not handed out along the size order", rbs.loc())
     # haplotig renaming happens after the lengths are final
     ba = repo.cls("BuildAssembly")
